@@ -521,12 +521,40 @@ def gen_source(rng, spq, hist):
         n.instrument = rng.choice([0, 0, 0, 1, 9])
         n.is_drum = rng.random() < (0.8 if n.instrument == 9 else 0.1)
         mx = max(mx, a + d)
+    if rng.random() < 0.3:
+        # quantization coincidence: two notes of one pitch, disjoint in time, rounded onto one start step with
+        # different end steps, stored in either order (Melody extraction orders them by start time)
+        a = off + rng.randrange(0, nbars * bar)
+        d = rng.choice([2, 3, 4])
+        pitch = rng.choice([72, 76, 79, 60])
+        pair = [(a, a + 1, max(a - 0.4, 0.0), a - 0.1 if a > 0 else 0.3), (a, a + d, a + 0.35, float(a + d))]
+        if rng.random() < 0.5:
+            pair.reverse()
+        for (qs, qe, st, et) in pair:
+            n = ns.notes.add()
+            n.quantized_start_step, n.quantized_end_step = qs, qe
+            n.start_time, n.end_time = st * secs, et * secs
+            n.pitch, n.velocity, n.instrument, n.is_drum = pitch, 100, 0, False
+        mx = max(mx, a + d)
+        hist.add('source:same-pitch-one-step-disjoint-times')
     for _ in range(rng.choice([0, 1, 2, 4])):
         x = ns.text_annotations.add()
         x.quantized_step = off + rng.choice([0, bar, rng.randrange(0, nbars * bar + 1)])
         x.text = rng.choice(FIGS)
         x.annotation_type = 1
         x.time = x.quantized_step * secs
+    if rng.random() < 0.3:
+        # two chord symbols at distinct times rounded onto one step, different figures, either storage order
+        # (ChordProgression extraction from a later start step takes the later one)
+        c = off + rng.choice([0, 1, bar - 1, rng.randrange(0, nbars * bar + 1)])
+        f = rng.sample(sorted(set(FIGS)), 2)
+        pair = [(max(c - 0.3, 0.0) * secs, f[0]), ((c + 0.2) * secs, f[1])]
+        if rng.random() < 0.5:
+            pair.reverse()
+        for (t, fig) in pair:
+            x = ns.text_annotations.add()
+            x.quantized_step, x.text, x.annotation_type, x.time = c, fig, 1, t
+        hist.add('source:chords-one-step-distinct-times')
     ns.total_quantized_steps = mx + rng.choice([0, 0, 1, bar])
     ns.total_time = mx * secs
     hist.add('source:monophonic' if mono else 'source:polyphonic')
@@ -566,6 +594,11 @@ def gen_extracted(rng, kind, hist):
             c.update(ss=ss, S=d.start_step, ev=[sorted(e) for e in d])
         elif kind == 'chords':
             a = rng.choice([0, bar, rng.randrange(0, src.total_quantized_steps + 1)])
+            cs = [x.quantized_step for x in src.text_annotations]
+            shared = sorted({x for x in cs if cs.count(x) > 1})
+            if shared and rng.random() < 0.6:      # start after a step that two chord symbols share
+                a = rng.choice(shared) + rng.choice([1, 2, bar])
+                hist.add('source:chords-start-after-shared-step')
             e = a + rng.choice([1, bar, 2 * bar, rng.randrange(1, 3 * bar)])
             ch = cl.ChordProgression()
             ch.from_quantized_sequence(src, a, e)
